@@ -49,6 +49,16 @@ CHECKS = {
             "The round-trip clause is decided by its structural conditions: the writer emits every record, raw geometry that the reader inverts exactly, and orientations by name.",
             "Trusted: clang 14 front end; the pybind11 stub's fidelity to the call shapes module.cpp uses; Python's ast module. Not decided: stream formatting of values outside the property's domain.",
             "DESIGN.md 2/C20"),
+    "C14": ("index-domain qualifier typing of the 1-D transportation preprocessing and its callers",
+            "The memory-safety clause of the rounding is decided for every instance: each subscript of the sorter's conversions uses an index of the vector's own domain "
+            "(original vs sorted sources/sinks) and the returned assignment has one original sink per original source.",
+            "Trusted: clang 14 front end; the domain seeds in rules/c14.json. Not decided: optimality/validity of the plan; numeric scan bounds inside the solver.",
+            "DESIGN.md 2/C14"),
+    "C07": ("producer/consumer bit-width contradiction rules, triaged inventory of 32-bit products, may-be-minus-one taint to subscripts, interval proof of loop steps; positive controls",
+            "Structural no-overflow / no-crash clauses decided for the whole library: no int product is widened after the fact, no 64-bit cost is narrowed, every 32-bit product of two variables carries a bound argument, "
+            "last-element indices cannot reach a subscript for an empty container, computed loop steps are non-zero.",
+            "Trusted: clang 14 front end; the triage tables in rules/c07.json. Declined: general out-of-bounds freedom, assertion unreachability, division by zero, termination of numeric iterations.",
+            "DESIGN.md 2/C07"),
 }
 
 NOT_APPLICABLE = {
